@@ -380,8 +380,9 @@ func (c *Controller) ShouldGossip(msg *bft.Message) (gossip bool, exit bool) {
 func (c *Controller) GossipConsensus(message *bft.Message, senderPubToExclude []byte) {
 	// log the start of the gossip consensus message function
 	var phase lib.Phase
-	if message.Qc == nil {
-		phase = message.Header.Phase
+	if message.Qc == nil || message.Qc.Header == nil {
+		// untrusted message: a proposer message may carry an empty QC, never dereference a nil header
+		phase = message.GetHeader().GetPhase()
 	} else {
 		phase = message.Qc.Header.Phase
 	}
